@@ -1,5 +1,6 @@
 import VncModel.Update.USpecProofs
 import VncModel.Update.CopyOrder
+import VncModel.Update.Refine
 /-!
 # C02 — Clients converge to the framebuffer: no lost, stale or spurious updates
 
@@ -101,5 +102,159 @@ example : ∃ s : SState Nat,
     (Step.send _ (fun _ => True) (fun _ => False)), ?_, ?_⟩
   · intro p; simp [sendU0, sendUC, sendC1]
   · intro p; simp [sendU0, sendUC, sendC1]
+
+/-! ## The executable model refines the specification
+
+`VncModel/Update/Refine.lean`.  Abstraction `absS c fb pic`: the pixel sets (`dset`) of the model's
+three regions, `d = (dx, dy)`, together with a framebuffer and a client picture.  `WFc c`: the three
+regions are well-formed (C11).  `S scr`: the pixels of the screen.  For every operation of the
+executable model — the functions the driver runs against the C code — well-formedness is
+preserved and the abstract states are related by the corresponding `Step` of the specification;
+hence the convergence theorems above hold for the executable model itself (`model_converges`,
+`model_idle_converged`), for ALL sequences of operations, all region shapes, offsets, screen and
+cursor geometries, progressive-slice heights and maxRectsPerUpdate values.  Nothing is `_partial`.
+-/
+section Refinement
+open VncModel.Rgn VncModel.Update VncModel.Update.Refine
+open Classical
+
+/-- rfbMarkRegionAsModified after the application drew (anything) inside `r`: `Step.draw`. -/
+theorem refines_mark (scr : Screen) (c : Client) (r : Region) (hc : WFc c) (hr : r.WF)
+    (fb fb' pic : Pix → V) (hfb : ∀ p, S scr p → ¬ dset r p → fb' p = fb p) :
+    WFc (markRegion c r) ∧ Step (S scr) (absS c fb pic) (absS (markRegion c r) fb' pic) :=
+  ⟨markRegion_wf c r hc hr, markRegion_step (S scr) c r hc hr fb fb' pic hfb⟩
+
+/-- the rectangle rfbMarkRectAsModified marks is the normalised argument rectangle intersected
+with the screen (non-empty), so it lies inside the screen -/
+theorem mark_clip_inside (scr : Screen) (x1 y1 x2 y2 a b c d : Int)
+    (h : markClip scr x1 y1 x2 y2 = some (a, b, c, d)) :
+    (a = max (min x1 x2) 0 ∧ c = min (max x1 x2) scr.width ∧ a < c ∧
+     b = max (min y1 y2) 0 ∧ d = min (max y1 y2) scr.height ∧ b < d) ∧
+    ∀ p, dset (Region.rect a b c d) p → S scr p :=
+  ⟨markClip_some scr x1 y1 x2 y2 a b c d h, markClip_inside scr x1 y1 x2 y2 a b c d h⟩
+
+/-- SetEncodings (CopyRect flag, cursor-shape enabling with its cursor-box redraw): a `Step.draw`
+that changes no pixel -/
+theorem refines_setEncodings (scr : Screen) (c : Client) (cr cs : Bool) (hc : WFc c)
+    (fb pic : Pix → V) :
+    WFc (setEncodings scr c cr cs) ∧
+    Step (S scr) (absS c fb pic) (absS (setEncodings scr c cr cs) fb pic) :=
+  ⟨setEncodings_wf scr c cr cs hc, setEncodings_step (S scr) scr c cr cs hc fb pic⟩
+
+/-- rfbDoCopyRegion + rfbScheduleCopyRegion for a well-formed destination region whose source lies
+on the screen: one of `Step.copyNoCR` / `copyNew` / `copySame` (which one is decided exactly as the
+code decides: useCopyRect, pending copy empty, offsets equal), with the soft-cursor additions as
+`extra`. -/
+theorem refines_copy (scr : Screen) (c : Client) (D : Region) (dx dy : Int) (hc : WFc c)
+    (hD : D.WF) (hsrc : ∀ p, dset D p → S scr (psub p (dx, dy))) (fb pic : Pix → V) :
+    WFc (scheduleCopy scr c D dx dy) ∧
+    Step (S scr) (absS c fb pic)
+      (absS (scheduleCopy scr c D dx dy)
+        (fun p => if dset D p then fb (psub p (dx, dy)) else fb p) pic) :=
+  ⟨scheduleCopy_wf scr c D dx dy hc hD, scheduleCopy_step scr c D dx dy hc hD hsrc fb pic⟩
+
+/-- the FramebufferUpdateRequest handler, for ALL field values: no step when the rectangle is
+rejected, else `Step.request` with the clipped rectangle; and an accepted rectangle lies inside
+the screen (for all `x, y ≥ 0`, in particular all uint16 values). -/
+theorem refines_request (scr : Screen) (c : Client) (incr : Bool) (x y w h : Int) (hc : WFc c)
+    (fb pic : Pix → V) :
+    WFc (request scr c incr x y w h) ∧
+    Reach (S scr) (absS c fb pic) (absS (request scr c incr x y w h) fb pic) ∧
+    (∀ x' y' w' h', 0 ≤ x → 0 ≤ y → requestClip scr x y w h = some (x', y', w', h') →
+      ∀ p, dset (Region.rect x' y' (x' + w') (y' + h')) p → S scr p) :=
+  ⟨request_wf scr c incr x y w h hc, request_reach (S scr) scr c incr x y w h hc fb pic,
+   fun x' y' w' h' hx hy hq => (requestClip_inside scr x y w h x' y' w' h' hx hy hq).2.2.2.2⟩
+
+/-- rfbSendFramebufferUpdate: returning early is `Step.sendNothing`; sending is `Step.send`, the
+client's new picture being `sendPic` = the picture `Step.send` prescribes for
+`slice := slicePred scr c` (the progressive slice actually used; everything when slicing is off or
+the bounding box is empty) and `extra := dset (suUpd6 scr c)` (the region finally emitted as pixel
+data, after the soft-cursor boxes and the maxRectsPerUpdate bounding-box rule). -/
+theorem refines_send (scr : Screen) (c : Client) (hc : WFc c) (fb pic : Pix → V) :
+    WFc (sendUpdate scr c).1 ∧
+    ((sendUpdate scr c).2 = none →
+      Step (S scr) (absS c fb pic) (absS (sendUpdate scr c).1 fb pic)) ∧
+    (∀ sent, (sendUpdate scr c).2 = some sent →
+      Step (S scr) (absS c fb pic) (absS (sendUpdate scr c).1 fb (sendPic scr c fb pic)) ∧
+      sent.raws = (suUpd6 scr c).rects false false ∧
+      (∀ p, sendU0 (absS c fb pic) (slicePred scr c) p → dset (suUpd6 scr c) p)) :=
+  ⟨sendUpdate_wf scr c hc, sendUpdate_step_none (S scr) scr c hc fb pic,
+   fun sent hs => ⟨sendUpdate_step_some (S scr) scr c hc fb pic sent hs,
+     (sendUpdate_sent scr c sent hs).2, sendU0_sub_raw scr c hc fb pic⟩⟩
+
+/-- **The client really obtains that picture**: applying the emitted CopyRect messages one after
+the other in the emitted order (each copies `[x,x+w)×[y,y+h)` from `(srcX, srcY)`, like
+`memmove`) and then the emitted pixel rectangles (read from the framebuffer) yields `sendPic`. -/
+theorem client_applies_update (scr : Screen) (c : Client) (hc : WFc c) (fb pic : Pix → V)
+    (sent : Sent) (hs : (sendUpdate scr c).2 = some sent) :
+    clientApply fb pic sent = sendPic scr c fb pic :=
+  client_applies scr c hc fb pic sent hs
+
+/-- **The executable model converges**: after ANY sequence of model operations (`MStep`: draw+mark,
+SetEncodings, copy, request with arbitrary fields, rfbSendFramebufferUpdate, rfbUpdateClient — the
+client applying each update as emitted) from a fresh client, the regions are well-formed and the
+convergence invariant holds. -/
+theorem model_converges (scr : Screen) (fb0 pic0 : Pix → V) (t : MState V)
+    (h : MReach scr ⟨newClient scr, fb0, pic0⟩ t) :
+    WFc t.c ∧ Inv (S scr) (absS t.c t.fb t.pic) :=
+  model_inv scr fb0 pic0 t h
+
+/-- **… and whenever its modifiedRegion and copyRegion are empty, the client's picture equals the
+framebuffer on the whole screen.** -/
+theorem model_idle_converged (scr : Screen) (fb0 pic0 : Pix → V) (t : MState V)
+    (h : MReach scr ⟨newClient scr, fb0, pic0⟩ t)
+    (hM : t.c.M.isEmpty = true) (hC : t.c.C.isEmpty = true) :
+    ∀ p, S scr p → t.pic p = t.fb p :=
+  VncModel.Update.Refine.model_idle_converged scr fb0 pic0 t h hM hC
+
+/-! ### Non-vacuity of the refinement theorems -/
+
+/-- a 4×3 screen with a 2×2 cursor, slicing and coalescing switched on -/
+def scrEx : Screen :=
+  { width := 4, height := 3, cursor := ⟨2, 2, 0, 0⟩, cursorX := 1, cursorY := 1,
+    progSlice := 2, maxRects := 1 }
+
+example : WFc (newClient scrEx) := newClient_wf scrEx
+
+/-- a copy whose source lies on the screen (hypotheses of `refines_copy`) -/
+example : (Region.rect 1 1 3 3).WF ∧
+    ∀ p, dset (Region.rect 1 1 3 3) p → S scrEx (psub p (1, 1)) := by
+  refine ⟨rect_wf _ _ _ _, fun p hp => ?_⟩
+  rw [dset_rect] at hp
+  simp only [S, psub, scrEx]
+  omega
+
+/-- an accepted request (hypothesis of the inside-the-screen clause of `refines_request`) with
+clipping at work -/
+example : requestClip scrEx 1 1 65535 65535 = some (1, 1, 3, 2) := by decide
+
+/-- the hypotheses of `model_idle_converged` are satisfiable non-trivially: from a fresh client
+whose picture (all 0) differs from the framebuffer (all 1), a full non-incremental request, a
+sliced update (rows 0–1), an incremental request and a second sliced update (row 2) lead to an
+idle state -/
+example : ∃ t : MState Nat,
+    MReach scrEx ⟨newClient scrEx, fun _ => 1, fun _ => 0⟩ t ∧
+    t.c.M.isEmpty = true ∧ t.c.C.isEmpty = true := by
+  refine ⟨_, MReach.tail (MReach.tail (MReach.tail (MReach.tail (MReach.refl _)
+    (MStep.request _ _ _ false 0 0 4 3)) (MStep.send _ _ _))
+    (MStep.request _ _ _ true 0 0 4 3)) (MStep.send _ _ _), ?_, ?_⟩ <;> decide
+
+/-- a CopyRect client that is idle, then a copy is scheduled and an incremental request arrives:
+the next update consists of one CopyRect (hypotheses of `refines_send` / `client_applies_update`
+with a non-empty copy list) -/
+def cEx : Client :=
+  let idle := (sendUpdate scrEx (request scrEx (sendUpdate scrEx (request scrEx
+    (setEncodings scrEx (newClient scrEx) true true) false 0 0 4 3)).1 true 0 0 4 3)).1
+  request scrEx (scheduleCopy scrEx idle (Region.rect 1 1 3 3) 1 1) true 0 0 4 3
+
+example : (sendUpdate scrEx cEx).2.map (·.copies) = some [⟨1, 1, 2, 2, 0, 0⟩] := by decide
+
+example : WFc cEx := by
+  have e : (cEx.M, cEx.C, cEx.R) =
+      ([], [⟨1, 3, [⟨1, 3, ()⟩]⟩], [⟨0, 3, [⟨0, 4, ()⟩]⟩]) := by decide
+  simp only [Prod.mk.injEq] at e
+  simp [WFc, e.1, e.2.1, e.2.2, Region.WF, XList.WF, Sorted, SortedFrom]
+
+end Refinement
 
 end VncModel.Props.C02
